@@ -17,6 +17,8 @@ Section Phases2.
     I s (obs (now s) (if sock s then [TxOther] else []) o) a'.
   Hypothesis H_rx : forall s o a p a', I s o a -> g a (Rx p) = Some a' ->
     I (fst (step s (Rx p))) (obs (now s) (if sock s then [Arr p] else []) o) a'.
+  Hypothesis H_reconn : forall s o a a', I s o a -> g a Reconnect = Some a' ->
+    I (fst (step s Reconnect)) (obs (now s) ((if sock s then [Closed RC_RECONNECT] else []) ++ [TxConnect]) o) a'.
   Hypothesis H_IJ : forall s o a, I s o a -> sock s = false -> J s o a.
   Hypothesis H_dead : forall s o a a', J s o a -> g a Service = Some a' -> sock s = false ->
     I s (obs (now s) [LoopRc RC_CONN_LOST] o) a'.
@@ -28,7 +30,8 @@ Section Phases2.
   Lemma phase_step2 : forall s o a op a', I s o a -> g a op = Some a' ->
     I (fst (step s op)) (fold_left ostep (stamp (now (fst (step s op))) (snd (step s op))) o) a'.
   Proof.
-    intros s o a op a' HI Hg. destruct op as [dt| | |p].
+    intros s o a op a' HI Hg. destruct op as [dt| | |p|].
+    5:{ pose proof (H_reconn s o a a' HI Hg) as H. cbn [step fst snd now] in *. exact H. }
     - pose proof (H_tick s o a dt a' HI Hg) as H. cbn [step fst snd now] in *. exact H.
     - cbn [step]. unfold service.
       destruct (sock s) eqn:Es; cbn [negb].
@@ -246,6 +249,23 @@ Section NS.
         try (apply waiting_arr_other; [discriminate|exact Hp]). apply (waiting_arr_self _ _ _ _ _ _ _ _ Hp).
   Qed.
 
+  Lemma ns_reconn : forall s o a a', I_ns K d t0 s o a -> sw_op d a Reconnect = Some a' ->
+    I_ns K d t0 (fst (step s Reconnect))
+      (obs (nstep K d) (now s) ((if sock s then [Closed RC_RECONNECT] else []) ++ [TxConnect]) o) a'.
+  Proof.
+    intros s [[tm qm] n] a a' (Hb & Hi) Hg. inv Hg. split; [apply Ibase_reconn; exact Hb|].
+    destruct Hb as (Hk & Hn & Hio & Hin & Hpp & _).
+    rewrite nobs_split. unfold Ins_gen in *. intros Hok1 Hok2.
+    pose proof (tm_group _ _ _ _ _ Hok1) as (T1 & _ & T3). pose proof (qm_group _ _ _ Hok2) as Q1.
+    assert (HdK : d <= K) by (apply T3; right; apply in_or_app; right; left; reflexivity).
+    specialize (Hi T1 Q1). destruct Hi as (Hn0 & Ha & Hlo & Hd0 & _).
+    destr_st s. cbn [step]. proj.
+    split; [destruct sk; obs_simpl; exact Hn0|]. split; [exact Ha|]. split; [lia|]. split; [exact Hd0|]. intros _.
+    split; [destruct sk; obs_simpl; reflexivity|]. split.
+    - intros _. left. split; [destruct sk; obs_simpl; reflexivity|lia].
+    - congruence.
+  Qed.
+
   Lemma ns_IJ : forall s o a, I_ns K d t0 s o a -> sock s = false -> J_ns K d t0 s o a.
   Proof.
     intros s [[tm qm] n] a (Hb & Hi) Hsk. split; [exact Hb|]. unfold Ins_gen in *. intros H1 H2.
@@ -326,14 +346,15 @@ Lemma no_spurious_partial : forall K d t0 ops, 0 < K -> 0 <= d -> 0 < t0 ->
 Proof.
   intros K d t0 ops HK Hd Ht0 Hsw tr Htim Hcalm.
   unfold serviced_within in Hsw. rewrite sw_guarded in Hsw.
-  pose proof (fun h1 h2 h3 h4 h5 h6 h7 =>
-                run_from_inv2 (sw_op d) (nstep K d) (I_ns K d t0) (J_ns K d t0) h1 h2 h3 h4 h5 h6 h7
+  pose proof (fun h1 h2 h3 hr h4 h5 h6 h7 =>
+                run_from_inv2 (sw_op d) (nstep K d) (I_ns K d t0) (J_ns K d t0) h1 h2 h3 hr h4 h5 h6 h7
                   ops (init t0 K) [(t0, TxConnect)] (mktmon None None true, mkqmon 0 true, 0%nat) 0) as H.
   rewrite nstep_fold in H. unfold run in tr. fold tr in H.
   destruct H as (a & _ & Hi); try exact Hsw.
   - intros; eapply ns_tick; eauto.
   - intros; eapply ns_app; eauto.
   - intros; eapply ns_rx; eauto.
+  - intros; eapply ns_reconn; eauto.
   - intros; eapply ns_IJ; eauto.
   - intros; eapply ns_dead; eauto.
   - intros; eapply ns_read; eauto.
